@@ -92,6 +92,7 @@ class Gen:
         if r.random() < 0.2:
             self.absent("lnk"); tgt = r.choice([x for x in finals + srcs if self.nodes[x]["kind"] == "file"])
             cmds["ln"] = cmd(tool="symlink", ins=[tgt] if r.random() < 0.7 else [], outs=["lnk"], tag=self.nodes[tgt]["path"]); order.append("ln"); tn = tn + ["lnk"]
+        if r.random() < 0.1: tn = tn + [r.choice(self.markers)]      # a target naming a (usually missing) source: "missing inputs" error
         targets["t"] = tn
         if r.random() < 0.4: targets["u"] = [r.choice(finals)]
         return make_desc(cmds, targets, order)
@@ -225,8 +226,10 @@ class Gen:
             op = r.choices(list(w), weights=list(w.values()))[0]
             outs = [o for c in desc["cmds"].values() for o in c["outs"] if self.nodes[o]["kind"] == "file"]
             if op == "build": steps.append(("build", r.choice(list(desc["targets"]))))
-            elif op == "node" and outs: steps.append(("buildnode", r.choice(outs)))
-            elif op == "edit": steps.append(("write", r.choice(self.sources), r.choice("01")))
+            elif op == "node" and outs: steps.append(("buildnode", r.choice(outs + self.sources[:1] + self.markers[:1])))
+            elif op == "edit" and r.random() < 0.12:      # a source disappears (allow-missing-inputs / missing-input failures) ...
+                steps.append(("rm", r.choice(self.sources)))
+            elif op == "edit": steps.append(("write", r.choice(self.sources), r.choice("01")))     # ... or is (re)written
             elif op == "touch": steps.append(("touch", r.choice(self.sources)))
             elif op == "rm_out" and outs: steps.append(("rm", r.choice(outs)))
             elif op == "tamper" and getattr(self, "gd", False) and r.random() < 0.5:
